@@ -137,7 +137,7 @@ def seg_pairs(tier, seed, workers=16):
 def fan_cfg(rng, alg):
     """configurations on which the iteration order of the ready-task set is
     observable: more ready tasks than machines, heterogeneous machines"""
-    nm = rng.choice([1, 2, 2, 3])
+    nm = rng.choice([1, 2, 2, 3, 5, 6])
     machines = [{"id": f"m{i}", "cpu": rng.choice([1, 2, 3]), "bw": 1} for i in range(nm)]
     obs = []
     for i in range(rng.choice([1, 2, 2, 3])):
@@ -166,7 +166,7 @@ def fan_cfg(rng, alg):
         cfg["extra"] = [{"o": o["o"], "k": n["k"], "x": 1} for o in obs for n in o["wf"]["nodes"] if rng.random() < 0.3]
     elif r < 0.6 and alg in ("batch", "queue"):
         cfg["realDelay"] = {"prob": rng.choice([0.3, 0.5, 1.0]), "dist": rng.choice(["normal", "poisson", "uniform"]),
-                            "degree": rng.choice(["LOW", "MID", "HIGH"]), "seed": rng.choice([20, 3])}
+                            "degree": rng.choice(["LOW", "MID", "HIGH"]), "seed": rng.choice([20, 3, 0])}
     return gen.normalise(cfg)
 
 
